@@ -80,8 +80,8 @@ macro_rules! chan {
                 Some(catch(AssertUnwindSafe(move || {
                     let mut out: Vec<Bytes> = vec![];
                     {
-                        let mut net_out = crate::gen_c35::$o2o::snd::EmbeddedNetworkOut { ch: |b: Bytes| out.push(b) };
-                        let mut flow = crate::gen_c35::$o2o::snd(stream::iter(vec![x]), &mut net_out);
+                        let mut net_out = hv_net_gen::gen_c35::$o2o::snd::EmbeddedNetworkOut { ch: |b: Bytes| out.push(b) };
+                        let mut flow = hv_net_gen::gen_c35::$o2o::snd(stream::iter(vec![x]), &mut net_out);
                         run_tick(&mut flow);
                     }
                     assert_eq!(out.len(), 1, "one message per item");
@@ -93,11 +93,11 @@ macro_rules! chan {
                 catch(AssertUnwindSafe(move || {
                     let mut got: Vec<$t> = vec![];
                     {
-                        let net_in = crate::gen_c35::$o2o::rcv::EmbeddedNetworkIn {
+                        let net_in = hv_net_gen::gen_c35::$o2o::rcv::EmbeddedNetworkIn {
                             ch: stream::iter(vec![Ok::<_, std::io::Error>(BytesMut::from(&b[..]))]),
                         };
-                        let mut outputs = crate::gen_c35::$o2o::rcv::EmbeddedOutputs { output: |x: $t| got.push(x) };
-                        let mut flow = crate::gen_c35::$o2o::rcv(&mut outputs, net_in);
+                        let mut outputs = hv_net_gen::gen_c35::$o2o::rcv::EmbeddedOutputs { output: |x: $t| got.push(x) };
+                        let mut flow = hv_net_gen::gen_c35::$o2o::rcv(&mut outputs, net_in);
                         run_tick(&mut flow);
                     }
                     assert_eq!(got.len(), 1, "one value per message");
@@ -113,8 +113,8 @@ macro_rules! chan {
                     let sid = TaglessMemberId::from_raw_id(sender);
                     let (bufs, f) = demux_transport(members);
                     {
-                        let mut net_out = crate::gen_c35::$m2m::snd::EmbeddedNetworkOut { ch: f };
-                        let mut flow = crate::gen_c35::$m2m::snd(&sid, stream::iter(xs), &mut net_out);
+                        let mut net_out = hv_net_gen::gen_c35::$m2m::snd::EmbeddedNetworkOut { ch: f };
+                        let mut flow = hv_net_gen::gen_c35::$m2m::snd(&sid, stream::iter(xs), &mut net_out);
                         run_tick(&mut flow);
                     }
                     let mut res = vec![];
@@ -127,9 +127,9 @@ macro_rules! chan {
                             .collect();
                         let mut got: Vec<(MemberId<C1>, $t)> = vec![];
                         {
-                            let net_in = crate::gen_c35::$m2m::rcv::EmbeddedNetworkIn { ch: stream::iter(msgs) };
-                            let mut outputs = crate::gen_c35::$m2m::rcv::EmbeddedOutputs { output: |x| got.push(x) };
-                            let mut flow = crate::gen_c35::$m2m::rcv(&me, &mut outputs, net_in);
+                            let net_in = hv_net_gen::gen_c35::$m2m::rcv::EmbeddedNetworkIn { ch: stream::iter(msgs) };
+                            let mut outputs = hv_net_gen::gen_c35::$m2m::rcv::EmbeddedOutputs { output: |x| got.push(x) };
+                            let mut flow = hv_net_gen::gen_c35::$m2m::rcv(&me, &mut outputs, net_in);
                             run_tick(&mut flow);
                         }
                         res.push(got.into_iter().map(|(s, x)| (s.get_raw_id(), x.to_val())).collect());
@@ -145,8 +145,8 @@ macro_rules! chan {
                 Some(catch(AssertUnwindSafe(move || {
                     let (bufs, f) = demux_transport(members);
                     {
-                        let mut net_out = crate::gen_c35::$o2m::snd::EmbeddedNetworkOut { ch: f };
-                        let mut flow = crate::gen_c35::$o2m::snd(stream::iter(xs), &mut net_out);
+                        let mut net_out = hv_net_gen::gen_c35::$o2m::snd::EmbeddedNetworkOut { ch: f };
+                        let mut flow = hv_net_gen::gen_c35::$o2m::snd(stream::iter(xs), &mut net_out);
                         run_tick(&mut flow);
                     }
                     let mut res = vec![];
@@ -159,9 +159,9 @@ macro_rules! chan {
                             .collect();
                         let mut got: Vec<$t> = vec![];
                         {
-                            let net_in = crate::gen_c35::$o2m::rcv::EmbeddedNetworkIn { ch: stream::iter(msgs) };
-                            let mut outputs = crate::gen_c35::$o2m::rcv::EmbeddedOutputs { output: |x| got.push(x) };
-                            let mut flow = crate::gen_c35::$o2m::rcv(&me, &mut outputs, net_in);
+                            let net_in = hv_net_gen::gen_c35::$o2m::rcv::EmbeddedNetworkIn { ch: stream::iter(msgs) };
+                            let mut outputs = hv_net_gen::gen_c35::$o2m::rcv::EmbeddedOutputs { output: |x| got.push(x) };
+                            let mut flow = hv_net_gen::gen_c35::$o2m::rcv(&me, &mut outputs, net_in);
                             run_tick(&mut flow);
                         }
                         res.push(got.into_iter().map(|x| x.to_val()).collect());
@@ -175,8 +175,8 @@ macro_rules! chan {
                     let sid = TaglessMemberId::from_raw_id(sender);
                     let mut wire: Vec<Bytes> = vec![];
                     {
-                        let mut net_out = crate::gen_c35::$m2o::snd::EmbeddedNetworkOut { ch: |b: Bytes| wire.push(b) };
-                        let mut flow = crate::gen_c35::$m2o::snd(&sid, stream::iter(xs), &mut net_out);
+                        let mut net_out = hv_net_gen::gen_c35::$m2o::snd::EmbeddedNetworkOut { ch: |b: Bytes| wire.push(b) };
+                        let mut flow = hv_net_gen::gen_c35::$m2o::snd(&sid, stream::iter(xs), &mut net_out);
                         run_tick(&mut flow);
                     }
                     let msgs: Vec<_> = wire
@@ -185,9 +185,9 @@ macro_rules! chan {
                         .collect();
                     let mut got: Vec<(MemberId<C1>, $t)> = vec![];
                     {
-                        let net_in = crate::gen_c35::$m2o::rcv::EmbeddedNetworkIn { ch: stream::iter(msgs) };
-                        let mut outputs = crate::gen_c35::$m2o::rcv::EmbeddedOutputs { output: |x| got.push(x) };
-                        let mut flow = crate::gen_c35::$m2o::rcv(&mut outputs, net_in);
+                        let net_in = hv_net_gen::gen_c35::$m2o::rcv::EmbeddedNetworkIn { ch: stream::iter(msgs) };
+                        let mut outputs = hv_net_gen::gen_c35::$m2o::rcv::EmbeddedOutputs { output: |x| got.push(x) };
+                        let mut flow = hv_net_gen::gen_c35::$m2o::rcv(&mut outputs, net_in);
                         run_tick(&mut flow);
                     }
                     got.into_iter().map(|(s, x)| (s.get_raw_id(), x.to_val())).collect()
